@@ -516,8 +516,15 @@ def gen_c12(tier, seed):
                         if room is None: c.add("reserve 0 %d" % k)
                         c.add("setlen 0 %d %s" % (k, rng.choice("et"))); c.add("views 0"); c.add("probe 0")
                         if room is not None: room -= k
-                    c.add("swapb 0 0 %d" % (L,)) if L >= 1 and (room is None or True) and False else None
                     teardown(c); cases.append(c)
+                if cap is None:
+                    # back to capacity 0 after having owned a block: the views of the empty vector, then growth again
+                    for how in (["clear 0", "shrinktofit 0"], ["drain 0 u u e - drop", "shrinkto 0 0"], ["clear 0", "shrinktofit 0", "push 0 w0", "pop 0 drop", "shrinktofit 0"]):
+                        c = G.Case("vw%d" % n, layout); n += 1
+                        c.new(0, bk, tr); G.fill(c, 0, max(L, 1), rng)
+                        for h in how: c.add(h)
+                        c.add("views 0"); c.add("probe 0"); c.add("info 0"); c.add("push 0 w0"); c.add("views 0"); c.add("probe 0")
+                        teardown(c); cases.append(c)
     return cases
 
 PROPS["C12"] = {"gen": gen_c12, "proj": {"want_cap": True}, "kinds": SEM | {"memory", "crash", "capacity"} | OWN,
@@ -541,11 +548,14 @@ def gen_c13(tier, seed):
                 for i in range(L + 1):
                     ops += [["wswap 0 %d 0" % i], ["tassign 0 %d" % i], ["wswap 0 %d 1" % i]]
                     ops += [["remove 0 %d swap0" % i], ["swapremove 0 %d swap0" % i]]
+                    # a handle reports the element's size and type; the exchange with a type-erased right operand
+                    ops += [["remove 0 %d info" % i], ["swapremove 0 %d swapr0" % i], ["remove 0 %d swapr1" % i]]
                     for j in range(L + 1):
                         ops += [["tswap 0 %d %d" % (i, j)]]
                         if i < L and j < L: ops += [["swapb 0 %d %d" % (i, j)]]
                         if j < 3: ops += [["eswap 0 %d 1 %d" % (i, j)], ["eswap 1 %d 0 %d" % (j, i)]]
                 ops += [["eswap 0 0 2 0"], ["pop 0 swap0"], ["pop 0 swap1"], ["drain 0 u u e F:swap0,B:swap0 drop"]]
+                ops += [["pop 0 swapr0"], ["pop 0 info"], ["drain 0 u u e F:swapr0,B:info drop"], ["drain 0 u u e F:info,B:swapr0 drop"]]
                 for seq in ops:
                     c = G.Case("hd%d" % n, layout); n += 1
                     G.setup3(c, bk, tr, L, rng)
